@@ -1459,6 +1459,19 @@ Op* RegularExpression::compile(const Token* const token, Op* const next,
         break;
     case Token::T_RANGE:
     case Token::T_NRANGE:
+        {
+            // Complete the token now. A compiled expression can be matched
+            // by several threads at once (e.g. a pattern facet of a grammar
+            // in a locked pool), so match() must not have to modify it.
+            RangeToken* rangeTok = (RangeToken*) token;
+            rangeTok->createMap();
+            if (isSet(fOptions, IGNORE_CASE))
+            {
+                RangeToken* ciTok = rangeTok->getCaseInsensitiveToken(fTokenFactory);
+                if (ciTok)
+                    ciTok->createMap();
+            }
+        }
         ret = fOpFactory.createRangeOp(token);
         ret->setNextOp(next);
         break;
